@@ -31,7 +31,8 @@ fn path_eq(a: impl AsRef<Path>, b: impl AsRef<Path>) -> bool {
 }
 
 #[inline]
-fn os_str_eq(a: impl AsRef<OsStr>, b: impl AsRef<OsStr>) -> bool {
+fn os_str_eq(a: impl AsRef<OsStr>, b: impl AsRef<Path>) -> bool {
+    // compares as paths, like `Path == OsStr` in std and like `partial_cmp` below
     a.as_ref() == b.as_ref()
 }
 
